@@ -1,6 +1,6 @@
 # table consumed by tools_manifest.py
 ENGINES = [
-    {"name": "vv", "path": "vv/", "serves_properties": ["C02", "C03", "C04", "C05", "C06", "C07", "C09", "C11", "C12", "C13", "C15", "C17", "C18", "C19"], "kind_free_text": "runtime monitors: generators, independent flatbuffer reader/writer, compile drivers, sharded worker harness, evidence/findings"},
+    {"name": "vv", "path": "vv/", "serves_properties": ["C02", "C03", "C04", "C05", "C06", "C07", "C09", "C11", "C12", "C13", "C14", "C15", "C17", "C18", "C19"], "kind_free_text": "runtime monitors: generators, independent flatbuffer reader/writer, compile drivers, sharded worker harness, evidence/findings"},
 ]
 NOTES = ("Technique family: runtime monitoring and sanitizers. Every check runs the real code from /repo's working tree (codec rebuilt from the C "
          "sources on every run) under generated workloads with oracles observing executions; verdicts are violated / held-on-what-was-observed / "
@@ -128,3 +128,11 @@ check("C11", "translation_validation",
       "must be accepted by model_reader.read_model and by the plain reader. Campaign biased to CPU/NPU mixes, third-party custom ops, dynamic weights, multi-output graphs.",
       "Tensor identity is by name; 'absorbed' is decided from the artefact, not from the pipeline's own record.",
       "translation validation by artefact diff (independent parser)", "DESIGN.md 4/C11")
+
+check("C14", "exploration",
+      "History differential: sequences of 2-6 compilations are executed in one fresh process (A;A, A;B, adversarial twins sharing lookup-table contents / constants / tensor names, "
+      "mixed entry points main / convert / convert_bytes, mixed accelerators, long random sequences, optionally with another user of the global random generator in between) and "
+      "every step is compared - output bytes and summary CSV row - with a fresh-process CLI compilation of the same model and options; a step that fails only after a history is a "
+      "violation; single compilations are repeated under other PYTHONHASHSEED values.",
+      "Baseline = CLI in a fresh process with PYTHONHASHSEED=0; convert/convert_bytes are compared with the CLI options they hard-wire; models that do not compile alone are skipped.",
+      "runtime history differential (process-level record/compare)", "DESIGN.md 4/C14")
